@@ -1,4 +1,51 @@
+(* C32 — An LFS HTTP upload reported successful is stored and acknowledged.
+   Statements about model/Upload.v (the handlers with fixes/C32-*.patch applied), for
+   every event sequence: uploads, part sizes, completion lists, checksums, S3 faults and
+   broker replies.  Proofs live in proofs/UploadProofs.v. *)
 From KS Require Import lib.Base model.Upload proofs.UploadProofs.
 Open Scope Z_scope.
-Example C32_nonvacuous : True.
-Proof. exact I. Qed.
+
+(* After any history [es], if a request [e] (single-request upload or multipart
+   completion) is answered with an envelope, then the status is 200, the broker's reply to
+   the produce request was a per-partition error code 0 (not another code, not a transport
+   error, not an unparseable or empty response), the object named by the envelope exists
+   in S3 right after the request, and the envelope's size and SHA-256 are those of that
+   object.  [hashf 0] is SHA-256 (any function). *)
+Theorem C32_success_sound : forall hashf cfg es w rs e w' p env,
+  run hashf cfg init_world es = (w, rs) ->
+  step hashf cfg w e = (w', p) ->
+  p_env p = Some env ->
+  p_status p = 200 /\
+  completion_reply e = Some (RCode 0) /\
+  exists obj, get_obj (e_key env) (w_objects w') = Some obj /\
+              e_size env = bsize obj /\ e_sha env = hashf 0 obj.
+Proof. exact success_sound. Qed.
+Print Assumptions C32_success_sound.
+
+(* "Otherwise the client gets an error status": whatever the broker answers other than
+   error code 0, the completion is not answered 200. *)
+Theorem C32_broker_error_rejected : forall hashf cfg es w rs e w' p r,
+  run hashf cfg init_world es = (w, rs) ->
+  step hashf cfg w e = (w', p) ->
+  completion_reply e = Some r -> r <> RCode 0 ->
+  p_status p <> 200 /\ p_env p = None.
+Proof. exact broker_error_rejected. Qed.
+Print Assumptions C32_broker_error_rejected.
+
+(* non-vacuity: a two-part session completed with the exact list succeeds; listing only
+   part 2, a broker error code, and a retried part after an S3 failure are covered *)
+Definition h0 (alg : Z) (b : blob) : bytes := alg :: flat_map (fun c => [fst c; snd c]) b.
+Definition cfg0 := mkCfg 6291456 5242880 67108864.
+Example C32_nonvacuous :
+  let pre := [EInit 5243180 [] 0 false; EPart 1 (1, 5242880) false;
+              EPart 2 (2, 300) true; EPart 2 (2, 300) false] in
+  map p_status (snd (run h0 cfg0 init_world (pre ++ [EComplete [(2, 2)] false (RCode 0)]))) = [200; 200; 502; 200; 400] /\
+  map p_status (snd (run h0 cfg0 init_world (pre ++ [EComplete [(1, 1); (2, 2)] false (RCode 6)]))) = [200; 200; 502; 200; 502] /\
+  snd (run h0 cfg0 init_world (pre ++ [EComplete [(1, 1); (2, 2)] false (RCode 0)])) =
+    [fail 200; fail 200; fail 502; fail 200;
+     mkResp 200 (Some (mkEnv 0 5243180 (h0 0 [(1, 5242880); (2, 300)]) (h0 0 [(1, 5242880); (2, 300)])))] /\
+  w_objects (fst (run h0 cfg0 init_world (pre ++ [EComplete [(1, 1); (2, 2)] false (RCode 0)]))) =
+    [(0, [(1, 5242880); (2, 300)])] /\
+  snd (run h0 cfg0 init_world [EProduce [(7, 100)] [] 0 [] (RCode 0); EProduce [(8, 100)] [] 0 [] (RCode 3)]) =
+    [mkResp 200 (Some (mkEnv 0 100 (h0 0 [(7, 100)]) (h0 0 [(7, 100)]))); fail 502].
+Proof. vm_compute. repeat split. Qed.
